@@ -615,10 +615,103 @@ def rule_joincond(facts):
     return r
 
 
+def rule_cselazy(facts, rule="C02-CSELAZY"):
+    """Common-subexpression elimination hoists an expression into a projection below the operator, where it is evaluated for every
+    row. Sub-expressions of CASE (every WHEN after the first, every THEN/ELSE) and of AND/OR are evaluated only on the rows that reach
+    them; hoisted, a guarded `num / den` sees the rows its guard excluded and raises (or, volatile aside, costs) where the query as
+    written would not. Decided on `extract_expressions`: from the match arms of the lazily evaluated variants (Case, Conjunction) no
+    recursive descent is reachable - neither `for_each_child` nor a call of `extract_expressions` (a single non-looping call is tolerated:
+    it can only be the first WHEN, which is always evaluated)."""
+    from .mir import disc_switches, adt_variants
+    r = RuleResult(rule, "CSE does not descend into the conditionally evaluated operands of CASE / AND / OR", floor=2)
+    rec = facts.fn("glaredb_core::optimizer::common_subexpression::extract_expressions")
+    variants = adt_variants(facts, "glaredb_core::expr::Expression")
+    if rec is None or not variants:
+        r.missing_anchor("common_subexpression::extract_expressions / Expression variants")
+        return r
+    fn = Fn(rec)
+    r.functions.add(fn.id)
+    sws = [(b, pl, t) for b, pl, t in disc_switches(fn) if len(t[2]) >= 5]
+    if not sws:
+        r.missing_anchor("extract_expressions: no match on the expression variant")
+        return r
+    b0, _pl, t = sws[0]
+    targets = dict((v, bb) for v, bb in t[2])
+    all_targets = set(targets.values()) | {t[3]}
+    for name in ("Case", "Conjunction"):
+        if name not in variants:
+            r.missing_anchor(f"Expression::{name}")
+            continue
+        tgt = targets.get(variants[name], t[3])
+        others = {x for v, x in targets.items() if v != variants[name]} | ({t[3]} if tgt != t[3] else set())
+        if tgt in others:
+            region = set()          # shares its arm with trivial variants (`=> Ok(())`): nothing of its own
+        else:
+            region = fn.reachable_from(tgt) - set().union(*[fn.reachable_from(o) for o in others]) if others else fn.reachable_from(tgt)
+            region.add(tgt)
+        descents = []
+        for c in fn.calls():
+            if c.bb in region and (c.name.endswith("::extract_expressions") or c.name.endswith("::for_each_child") or c.name.endswith("::for_each_child_mut")):
+                in_loop = c.bb in fn.reachable_from(c.bb) and any(c.bb in fn.reachable_from(s_) for s_ in fn.succ[c.bb])
+                descents.append((c.line, c.name.rsplit("::", 1)[-1], in_loop))
+        bad = [d for d in descents if d[1] != "extract_expressions" or d[2]] or (descents if len(descents) > 1 else [])
+        ok = not bad
+        r.inst({"variant": name, "arm_blocks": len(region), "descents": [list(d) for d in descents]}, ok)
+        if not ok:
+            r.violate(fn.id, f"descends-into:{name}", f"extract_expressions walks into the operands of Expression::{name} (line {bad[0][0]}): a conditionally evaluated "
+                      "sub-expression that occurs twice is hoisted below the operator and evaluated on rows its guard excludes", rec["file"], bad[0][0])
+    return r
+
+
+# Rewrite rules that exist in the tree but are switched off by the project itself, with the project's own reason. Frozen after reading
+# optimizer/mod.rs and the rule: re-enabling one applies an unfinished rewrite to every plan.
+DISABLED_RULES = {
+    "glaredb_core::optimizer::redundant_groups::RemoveRedundantGroups":
+        "disabled in Optimizer::optimize ('TODO: Re-enable this when it works better with duplicated expressions across grouping sets'); when it "
+        "shifts a retained group column it takes the column's type from the group table at the *new* index before the table's types are rewritten, so "
+        "GROUP BY a, a + 1, b (a INT, b TEXT) plans a column typed Int32 over an array of Utf8 and fails at execution",
+}
+
+
+def rule_deadrule(facts, rule="C02-DEADRULE"):
+    """A rewrite rule the project has switched off must stay off: nothing that runs may call its `optimize`. (Liveness is decided on the
+    call sites of every function that calls some OptimizeRule::optimize; a brand-new rule is not this rule's business.)"""
+    r = RuleResult(rule, "optimizer rules the project has disabled are not applied", floor=1)
+    impls = [i for i in facts.records("impl", "glaredb_core") if i.get("trait", "").endswith("optimizer::OptimizeRule")]
+    if len(impls) < 8:
+        r.missing_anchor("impls of optimizer::OptimizeRule (expected at least 8)")
+        return r
+    have = {i["self_ty"] for i in impls}
+    callers = []
+    for rec in facts.all_fns(["glaredb_core"], contains="OptimizeRule>::optimize"):
+        if "::tests::" in rec["id"]:
+            continue
+        fn = Fn(rec)
+        for c in fn.calls():
+            if c.name.endswith("OptimizeRule>::optimize"):
+                callers.append((rec, c))
+    if len(callers) < 8:
+        r.missing_anchor("call sites of OptimizeRule::optimize (expected at least 8)")
+        return r
+    for ty, why in DISABLED_RULES.items():
+        if ty not in have:
+            r.notes.append(f"{ty} no longer exists (entry is moot)")
+            continue
+        used = [(rec, c) for rec, c in callers if c.name.startswith(f"<{ty} as ")]
+        # calls from inside the rule's own module (recursion over the plan) do not make it live
+        used = [(rec, c) for rec, c in used if ty.rsplit("::", 1)[0] not in rec["id"]]
+        ok = not used
+        r.inst({"rule": ty, "applied_from": [rec["id"] for rec, c in used]}, ok)
+        for rec, c in used:
+            r.functions.add(rec["id"])
+            r.violate(rec["id"], f"disabled-rule-applied:{ty.rsplit('::', 1)[-1]}", f"{ty.rsplit('::', 1)[-1]} is applied although the project has it disabled: {why}", rec["file"], c.line)
+    return r
+
+
 def run(ctx):
     facts = ctx["facts"]
     res = [rule_vol_fold(facts), rule_vol_cse(facts), rule_vol_exists(facts), rule_limit(facts), rule_limitpd(facts), rule_outer(facts),
-           rule_gsets(facts), rule_orall(facts), rule_distor(facts), rule_joincond(facts)]
+           rule_gsets(facts), rule_orall(facts), rule_distor(facts), rule_joincond(facts), rule_cselazy(facts), rule_deadrule(facts)]
     # shared clauses
     from . import c13
     res.append(c13.rule_flat(facts))
@@ -639,7 +732,8 @@ CLAIM = {
     "text": "Path rules (edge dominance, must-pass-through, receiver provenance) and HIR match-table rules over the optimizer's rewrite "
             "functions decide the side conditions that make each rewrite an equivalence (volatility, LIMIT barrier, preserved side of outer "
             "joins, cast-flatten and LIKE guards) on all CFG paths. Plan equivalence on data is a value-level statement outside static reach; "
-            "these clauses are the necessary conditions whose violation changes results (incl. the ∀∀ grouping-set test of aggregate pushdown). Plus: a join node re-built with the join type of an existing node keeps that node's condition unless the join type was tested to be Inner (a filter is merged into an ON clause only for INNER joins).",
+            "these clauses are the necessary conditions whose violation changes results (incl. the ∀∀ grouping-set test of aggregate pushdown). Plus: a join node re-built with the join type of an existing node keeps that node's condition unless the join type was tested to be Inner (a filter is merged into an ON clause only for INNER joins)."
+            " Plus CSELAZY (CSE never descends into the conditionally evaluated operands of CASE / AND / OR) and DEADRULE (rewrite rules the project itself has disabled are not applied).",
     "note": "trusted: rustc MIR/HIR; deny/allow tables in rules/c02.py (filters never cross Limit; Limit only crosses Project); class of "
             "existential predicates discovered from the accumulator's initial constant",
     "technique": "static analysis: MIR edge-dominance/provenance rules + HIR match tables (rustc_private driver)",
